@@ -93,3 +93,94 @@ def two_globals(a="g", b="h", basis="ground-rydberg"):
         ("delay", 52, a),
         ("disable_eom", a, False),
     ]
+
+LL = [("declare", "r", "rydberg_local", "q0"), ("declare", "l", "raman_local", "q0")]  # two locals
+L1 = [("declare", "l", "raman_local", "q0")]
+C300 = ["c", 300, 1.0, 0.0, 0.0]
+
+
+def two_locals(a="r", b="l"):
+    return [
+        ("add", C52, a),
+        ("add", B100, a, "no-delay"),
+        ("add", C300, a),
+        ("add", C52, b),
+        ("add", C16, b, "min-delay"),
+        ("add", C52P, b, "wait-for-all"),
+        ("target", "q1", a),
+        ("target", "q0", a),
+        ("target", "q1", b),
+        ("target", ["q0", "q1"], b),
+        ("delay", 16, b),
+        ("align", (a, b), False),
+    ]
+
+
+def retarget(l="l", g="g"):
+    """C10 alphabet: phase jumps and retargets on a local channel, one global channel next to it."""
+    return [
+        ("add", C52, l),
+        ("add", C52P, l),
+        ("add", C52P, l, "no-delay"),
+        ("add", B100, l, "wait-for-all"),
+        ("add", C52, g),
+        ("delay", 16, l),
+        ("delay", 100, l),
+        ("target", "q1", l),
+        ("target", "q0", l),
+        ("target", ["q0", "q1"], l),
+        ("align", (g, l), True),
+    ]
+
+
+def eom_phase(g="g"):
+    return [
+        ("add", C52, g),
+        ("add", C52P, g),
+        ("enable_eom", g, 2.0, 0.0, 0.0, False),
+        ("enable_eom", g, 2.0, 1.0, -10.0, False),
+        ("eom_pulse", g, 52, 0.0, 0.0, "min-delay", False),
+        ("eom_pulse", g, 52, PI2, 0.0, "min-delay", False),
+        ("eom_pulse", g, 16, PI2, 0.0, "no-delay", False),
+        ("eom_pulse", g, 52, 0.0, 0.0, "wait-for-all", True),
+        ("delay", 16, g),
+        ("disable_eom", g, False),
+    ]
+
+DG = [("config_dmm", "m2", "dmm_0"), ("declare", "g", "rydberg_global"), ("declare", "r", "rydberg_local", "q0")]  # DMM first
+GRL = [("declare", "g", "rydberg_global"), ("declare", "r", "rydberg_local", "q0"), ("declare", "l", "raman_local", "q1")]
+C52N = ["c", 52, 1.0, 0.0, 0.3, -1.0]  # programmed phase 0.3, post shift -1.0
+
+
+def phases(g="g", r="r", l=None, basis="ground-rydberg", eom=True):
+    """C07 alphabet: shifts on subsets / bases, pulses with post phase shifts, retargets, several channels on one basis."""
+    A = [
+        ("phase_shift", 1.0, ("q0",), basis),
+        ("phase_shift", -0.5, ("q1",), basis),
+        ("phase_shift", 7.0, ("q0", "q1"), basis),
+        ("phase_shift", round(2 * math.pi, 12), ("q1",), basis),
+        ("phase_shift", 0.0, ("q0",), basis),
+        ("add", C52, g),
+        ("add", C52S, g),
+        ("add", C52N, g, "no-delay"),
+        ("add", C52, r),
+        ("add", C52S, r),
+        ("add", C52N, r, "wait-for-all"),
+        ("target", "q1", r),
+        ("target", "q0", r),
+        ("target", ["q0", "q1"], r),
+    ]
+    if l:
+        A += [
+            ("phase_shift", 1.0, ("q0", "q1"), "digital"),
+            ("phase_shift", -2.0, ("q1",), "digital"),
+            ("add", C52S, l),
+            ("target", "q0", l),
+        ]
+    if eom:
+        A += [
+            ("enable_eom", g, 2.0, 0.0, 0.0, False),
+            ("eom_pulse", g, 52, 0.5, 1.0, "min-delay", False),
+            ("disable_eom", g, False),
+        ]
+    return A
